@@ -389,8 +389,12 @@ theorem bindTarget_shape (left right : Reg) (sc : Scope) (hs : ScInv2 sc) :
   intro left' sc' he
   unfold bindTarget at he
   split at he
-  · obtain ⟨h1, h2⟩ := updateType_inv2 hs _ _ _ _ he
-    exact ⟨h1, Or.inr h2⟩
+  · split at he
+    · simp at he
+      obtain ⟨rfl, rfl⟩ := he
+      exact ⟨hs, Or.inl rfl⟩
+    · obtain ⟨h1, h2⟩ := updateType_inv2 hs _ _ _ _ he
+      exact ⟨h1, Or.inr h2⟩
   · simp at he
     obtain ⟨rfl, rfl⟩ := he
     exact ⟨hs, Or.inl rfl⟩
